@@ -534,7 +534,36 @@ func (w *World) intrinsic(t *Thread, f *Frame, fnv FuncV, args []Val, c *ssa.Cal
 		w.s.send(fmt.Sprintf("(assert (and (>= %s 0.0) (< %s 1.0)))", r, r))
 		return symR(r), false
 	case "math.Pow":
-		return w.mathPow(args[0], args[1]), false
+		k := "pow:" + fmt.Sprint(args[0]) + "^" + fmt.Sprint(args[1])
+		if v, ok := w.cells[k]; ok {
+			return v, false
+		}
+		v := w.mathPow(args[0], args[1])
+		w.cells[k] = v
+		return v, false
+	case "math.IsInf":
+		sg := args[1].(int64)
+		if fs, ok := args[0].(FSpec); ok {
+			return fs.k != 0 && (sg == 0 || (sg > 0) == (fs.k > 0)), false
+		}
+		return false, false
+	case "math.IsNaN":
+		if fs, ok := args[0].(FSpec); ok {
+			return fs.k == 0, false
+		}
+		return false, false
+	case "math.Abs":
+		switch x := args[0].(type) {
+		case float64:
+			return math.Abs(x), false
+		case Sym:
+			return symR("(ite (>= " + x.t + " 0.0) " + x.t + " (- " + x.t + "))"), false
+		case FSpec:
+			if x.k == 0 {
+				return x, false
+			}
+			return FSpec{1}, false
+		}
 	case "encoding/json.Marshal":
 		iv := args[0].(IfaceV)
 		if n, ok := iv.typ.(*types.Named); ok && n.Obj().Name() == "leadershipPayload" {
@@ -1111,8 +1140,10 @@ func (w *World) mathPow(x, y Val) Val {
 	w.names["pow"]++
 	which := w.decide(2, "pow-overflow")
 	if which == 1 {
-		// +Inf is only possible when base > 1 and exponent > 0
-		w.s.send("(assert (and (> " + term(x) + " 1.0) (> " + term(y) + " 0.0)))")
+		// +Inf needs base > 1 and a large exponent. The branch is restricted to the realisable subset
+		// base >= 2, exponent >= 1024 (2^1024 overflows float64): code downstream of an infinite result
+		// does not depend on base and exponent any more, so overflows with 1 < base < 2 behave identically.
+		w.s.send("(assert (and (>= " + term(x) + " 2.0) (>= " + term(y) + " 1024.0)))")
 		if w.s.check("") != "sat" {
 			w.infeas = true
 		}
@@ -1124,6 +1155,7 @@ func (w *World) mathPow(x, y Val) Val {
 	w.s.send(fmt.Sprintf("(assert (=> (= %s 0.0) (= %s 1.0)))", term(y), p))
 	w.s.send(fmt.Sprintf("(assert (=> (= %s 1.0) (= %s 1.0)))", term(x), p))
 	w.s.send(fmt.Sprintf("(assert (=> (= %s 1.0) (= %s %s)))", term(y), p, term(x)))
+	w.s.send(fmt.Sprintf("(assert (=> (and (>= %s 1.0) (>= %s 1.0)) (>= %s %s)))", term(x), term(y), p, term(x)))
 	return symR(p)
 }
 
